@@ -322,6 +322,7 @@ type try07 struct {
 	U1       nodeRes `json:"u1"`
 	PCap2    int     `json:"pcap2"`
 	Restored bool    `json:"restored"`
+	Msg      string  `json:"msg,omitempty"` // text of an unclassified error (diagnosis only)
 	Direct   bool    `json:"direct,omitempty"` // plugin.CalculateDeploy only (no commit)
 }
 
@@ -388,7 +389,8 @@ func genC07(r *hx.Rng, id string) *case07 {
 }
 
 func (f *fixture) pluginCaps(names []string, q reqJ) (map[string]int, int, error) {
-	resp, err := f.cm.GetNodesDeployCapacity(f.ctx, names, q.raw())
+	var resp *plugintypes.GetNodesDeployCapacityResponse
+	err := retry(func() (e error) { resp, e = f.cm.GetNodesDeployCapacity(f.ctx, names, q.raw()); return })
 	if err != nil {
 		return nil, 0, err
 	}
@@ -400,7 +402,8 @@ func (f *fixture) pluginCaps(names []string, q reqJ) (map[string]int, int, error
 }
 
 func (f *fixture) usage(name string) nodeRes {
-	resp, err := f.cm.GetNodeResourceInfo(f.ctx, name, nil)
+	var resp *plugintypes.GetNodeResourceInfoResponse
+	err := retry(func() (e error) { resp, e = f.cm.GetNodeResourceInfo(f.ctx, name, nil); return })
 	if err != nil {
 		panic(err)
 	}
@@ -420,7 +423,7 @@ func (f *fixture) runC07(c *case07) {
 	short := func(name string) string { return name[len(c.ID)+1:] }
 	for _, n := range c.Nodes {
 		names = append(names, real(n.Name))
-		if _, err := f.cm.SetNodeResourceInfo(f.ctx, real(n.Name), n.Cap.raw(), n.Usage.raw()); err != nil {
+		if err := retry(func() error { _, e := f.cm.SetNodeResourceInfo(f.ctx, real(n.Name), n.Cap.raw(), n.Usage.raw()); return e }); err != nil {
 			im.SetErr = errClass(err)
 			return
 		}
@@ -439,7 +442,9 @@ func (f *fixture) runC07(c *case07) {
 		}
 	}
 	opts := resourcetypes.Resources{"cpumem": c.Req.raw()}
-	caps, total, err := mgr.GetNodesDeployCapacity(f.ctx, names, opts)
+	var caps map[string]*plugintypes.NodeDeployCapacity
+	var total int
+	err := retry(func() (e error) { caps, total, e = mgr.GetNodesDeployCapacity(f.ctx, names, opts); return })
 	if err != nil {
 		im.Err = errClass(err)
 		return
@@ -479,19 +484,24 @@ func (f *fixture) runC07(c *case07) {
 	u0 := f.usage(name0)
 	for i, k := range ks {
 		if i > 0 {
-			if _, err := f.cm.SetNodeResourceInfo(f.ctx, name0, n0.Cap.raw(), n0.Usage.raw()); err != nil {
+			if err := retry(func() error { _, e := f.cm.SetNodeResourceInfo(f.ctx, name0, n0.Cap.raw(), n0.Usage.raw()); return e }); err != nil {
 				panic(err)
 			}
 		}
 		t := try07{K: k, WS: []wres{}}
 		var ws []resourcetypes.Resources
 		var err error
-		kind, _ := hx.Guard(20*time.Second, func() { ws, _, err = mgr.Alloc(f.ctx, name0, k, opts) })
+		kind, _ := hx.Guard(60*time.Second, func() {
+			err = retry(func() (e error) { ws, _, e = mgr.Alloc(f.ctx, name0, k, opts); return })
+		})
 		switch {
 		case kind != "":
 			t.Err = kind
 		case err != nil:
 			t.Err = errClass(err)
+			if t.Err == "other" {
+				t.Msg = fmt.Sprintf("%.300s", err.Error())
+			}
 		default:
 			t.OK = true
 			for _, w := range ws {
@@ -500,14 +510,14 @@ func (f *fixture) runC07(c *case07) {
 			t.U1 = f.usage(name0)
 			pc, _, _ := f.pluginCaps([]string{name0}, c.Req)
 			t.PCap2 = pc[name0]
-			if err := mgr.RollbackAlloc(f.ctx, name0, ws); err == nil {
+			if err := retry(func() error { return mgr.RollbackAlloc(f.ctx, name0, ws) }); err == nil {
 				t.Restored = usageEq(f.usage(name0), u0)
 			}
 		}
 		im.Tries = append(im.Tries, t)
 	}
 	if direct > 0 {
-		if _, err := f.cm.SetNodeResourceInfo(f.ctx, name0, n0.Cap.raw(), n0.Usage.raw()); err != nil {
+		if err := retry(func() error { _, e := f.cm.SetNodeResourceInfo(f.ctx, name0, n0.Cap.raw(), n0.Usage.raw()); return e }); err != nil {
 			panic(err)
 		}
 		t := try07{K: direct, Direct: true, WS: []wres{}}
@@ -645,7 +655,7 @@ func (f *fixture) runC08(c *case08, next func(live []live08, hist []op08, lastOK
 	name := c.ID
 	c.Impl = []res08{}
 	c.Ops = []op08{}
-	if _, err := f.cm.SetNodeResourceInfo(f.ctx, name, c.Cap.raw(), nil); err != nil {
+	if err := retry(func() error { _, e := f.cm.SetNodeResourceInfo(f.ctx, name, c.Cap.raw(), nil); return e }); err != nil {
 		c.SetErr = errClass(err)
 		return
 	}
@@ -673,7 +683,10 @@ func (f *fixture) runC08(c *case08, next func(live []live08, hist []op08, lastOK
 			}
 			var ws []resourcetypes.Resources
 			kind, _ = hx.Guard(20*time.Second, func() {
-				ws, _, err = f.mgr.Alloc(f.ctx, name, op.K, resourcetypes.Resources{"cpumem": op.Req.raw()})
+				err = retry(func() (e error) {
+					ws, _, e = f.mgr.Alloc(f.ctx, name, op.K, resourcetypes.Resources{"cpumem": op.Req.raw()})
+					return
+				})
 			})
 			if kind == "" && err == nil {
 				for _, w := range ws {
@@ -697,7 +710,7 @@ func (f *fixture) runC08(c *case08, next func(live []live08, hist []op08, lastOK
 					keep = append(keep, l)
 				}
 			}
-			kind, _ = hx.Guard(20*time.Second, func() { err = f.mgr.RollbackAlloc(f.ctx, name, pick) })
+			kind, _ = hx.Guard(60*time.Second, func() { err = retry(func() error { return f.mgr.RollbackAlloc(f.ctx, name, pick) }) })
 			if kind == "" && err == nil {
 				live = keep
 			}
@@ -710,7 +723,10 @@ func (f *fixture) runC08(c *case08, next func(live []live08, hist []op08, lastOK
 			}
 			var delta, nw resourcetypes.Resources
 			kind, _ = hx.Guard(20*time.Second, func() {
-				_, delta, nw, err = f.mgr.Realloc(f.ctx, name, live[op.I].raw, resourcetypes.Resources{"cpumem": op.Req.raw()})
+				err = retry(func() (e error) {
+					_, delta, nw, e = f.mgr.Realloc(f.ctx, name, live[op.I].raw, resourcetypes.Resources{"cpumem": op.Req.raw()})
+					return
+				})
 			})
 			undo = nil
 			if kind == "" && err == nil {
@@ -730,7 +746,7 @@ func (f *fixture) runC08(c *case08, next func(live []live08, hist []op08, lastOK
 			}
 			u := undo
 			undo = nil
-			kind, _ = hx.Guard(20*time.Second, func() { err = f.mgr.RollbackRealloc(f.ctx, name, u.delta) })
+			kind, _ = hx.Guard(60*time.Second, func() { err = retry(func() error { return f.mgr.RollbackRealloc(f.ctx, name, u.delta) }) })
 			if kind == "" && err == nil {
 				live[u.idx] = u.origin
 			}
@@ -748,7 +764,8 @@ func (f *fixture) runC08(c *case08, next func(live []live08, hist []op08, lastOK
 		for _, l := range live {
 			raws = append(raws, l.raw["cpumem"])
 		}
-		info, ierr := f.cm.GetNodeResourceInfo(f.ctx, name, raws)
+		var info *plugintypes.GetNodeResourceInfoResponse
+		ierr := retry(func() (e error) { info, e = f.cm.GetNodeResourceInfo(f.ctx, name, raws); return })
 		if ierr != nil {
 			panic(ierr)
 		}
@@ -804,9 +821,20 @@ func genC09(r *hx.Rng, id string) *case09 {
 	np := hx.Pick(r, 1, 2, 2, 3, 3, 4)
 	nn := r.Range(1, 5)
 	perEntryW := r.Chance(30)
+	// zero weights: some (never all) plugins answer with weight 0 (their capacity still binds and
+	// they still restrict the offered nodes); plugin `pos` keeps a positive weight so that the
+	// weight sum of every offered node is positive
+	zeroW := np > 1 && r.Chance(25)
+	pos := r.Intn(np)
+	if zeroW {
+		perEntryW = false
+	}
 	for p := 0; p < np; p++ {
 		a := ans09{Name: fmt.Sprintf("p%d", p), Nodes: map[string]cap09{}}
 		w := hx.Pick(r, int64(1), 2, 4, 4, 8, 400, 3, 5)
+		if zeroW && p != pos && r.Chance(60) {
+			w = 0
+		}
 		skip := hx.Pick(r, 0, 0, 20, 50)
 		for n := 0; n < nn; n++ {
 			if r.Chance(skip) {
@@ -1002,18 +1030,20 @@ func workloadsOf(ws []wres) []*coretypes.Workload {
 func (f *fixture) runC15(c *case15) {
 	im := &impl15{}
 	c.Impl = im
-	if _, err := f.cm.SetNodeResourceInfo(f.ctx, c.ID, c.Cap.raw(), c.Usage.raw()); err != nil {
+	if err := retry(func() error { _, e := f.cm.SetNodeResourceInfo(f.ctx, c.ID, c.Cap.raw(), c.Usage.raw()); return e }); err != nil {
 		im.SetErr = errClass(err)
 		return
 	}
 	defer f.cm.RemoveNode(f.ctx, c.ID) //nolint
 	wl := workloadsOf(c.WS)
-	_, u, diffs, err := f.mgr.GetNodeResourceInfo(f.ctx, c.ID, wl, true)
+	var u resourcetypes.Resources
+	var diffs []string
+	err := retry(func() (e error) { _, u, diffs, e = f.mgr.GetNodeResourceInfo(f.ctx, c.ID, wl, true); return })
 	if err != nil {
 		panic(err)
 	}
 	im.Fix = fix15{Usage: nodeResOf(u["cpumem"]), Diffs: len(diffs)}
-	_, u, diffs, err = f.mgr.GetNodeResourceInfo(f.ctx, c.ID, wl, false)
+	err = retry(func() (e error) { _, u, diffs, e = f.mgr.GetNodeResourceInfo(f.ctx, c.ID, wl, false); return })
 	if err != nil {
 		panic(err)
 	}
@@ -1071,7 +1101,7 @@ func genC32(r *hx.Rng, id string) *case32 {
 func (f *fixture) runC32(c *case32) {
 	im := &impl32{Out: map[string]eng32{}}
 	c.Impl = im
-	if _, err := f.cm.SetNodeResourceInfo(f.ctx, c.ID, c.Cap.raw(), c.Usage.raw()); err != nil {
+	if err := retry(func() error { _, e := f.cm.SetNodeResourceInfo(f.ctx, c.ID, c.Cap.raw(), c.Usage.raw()); return e }); err != nil {
 		im.SetErr = errClass(err)
 		return
 	}
@@ -1081,7 +1111,8 @@ func (f *fixture) runC32(c *case32) {
 		wl = append(wl, &coretypes.Workload{ID: id, Resources: resourcetypes.Resources{"cpumem": w.raw()}})
 	}
 	sort.Slice(wl, func(i, j int) bool { return wl[i].ID < wl[j].ID })
-	out, err := f.mgr.Remap(f.ctx, c.ID, wl)
+	var out map[string]resourcetypes.Resources
+	err := retry(func() (e error) { out, e = f.mgr.Remap(f.ctx, c.ID, wl); return })
 	if err != nil {
 		im.Err = errClass(err)
 		return
